@@ -1159,9 +1159,10 @@ fn specs(s: &str) -> Vec<ColumnSpec<'static>> {
 /// the per-column form are produced), decoded by scylla_cql's `deserialize_with_features`, and the
 /// derived SerializeRow runs on `prepared_metadata.col_specs`, the derived DeserializeRow on
 /// `result_metadata.col_specs()`.
-fn decoded_specs(cols: &str) -> Result<(Vec<ColumnSpec<'static>>, Vec<ColumnSpec<'static>>), String> {
+fn decoded_specs(cols: &str, two_tables: bool) -> Result<(Vec<ColumnSpec<'static>>, Vec<ColumnSpec<'static>>), String> {
     use vh::mocknode::types::body_result_prepared;
     use vh::mocknode::{ColSpec, CqlType, PreparedSpec};
+    let ncols = if cols == "-" { 0 } else { cols.split(',').count() };
     let cs: Vec<ColSpec> = if cols == "-" {
         vec![]
     } else {
@@ -1174,8 +1175,8 @@ fn decoded_specs(cols: &str) -> Result<(Vec<ColumnSpec<'static>>, Vec<ColumnSpec
                     "t" => CqlType::Text,
                     _ => CqlType::BigInt,
                 };
-                // columns named with an upper-case first letter live in another table: no global spec
-                let table = if n.chars().next().is_some_and(|c| c.is_ascii_uppercase()) && i > 0 { "tbl2" } else { "tbl" };
+                // kind PT: the last column lives in another table, so no global table spec is sent
+                let table = if two_tables && i > 0 && i + 1 == ncols { "tbl2" } else { "tbl" };
                 ColSpec::new("ks", table, n, typ)
             })
             .collect()
@@ -1219,8 +1220,8 @@ fn run_case(reg: &[Entry], case: &str) -> String {
             }
             None => "error no-DeserializeValue".into(),
         },
-        "PR" => {
-            let (bind, result) = match decoded_specs(f[3]) {
+        "PR" | "PT" => {
+            let (bind, result) = match decoded_specs(f[3], f[0] == "PT") {
                 Ok(x) => x,
                 Err(m) => return m,
             };
@@ -1373,18 +1374,9 @@ impl Gen<'_> {
         self.emit(format!("{} {} {} {} {}", if is_v { "SV" } else { "SR" }, e.id, e.desc, dbs, cells_str(&vals)));
         if !is_v && self.r.chance(1, 6) {
             // the same case on column specs decoded by the driver from an encoded PREPARED response;
-            // sometimes one column is put into another table (upper-case first letter, so it is an
-            // unknown name for the struct) to force the non-global table spec form
-            let mut db2 = db.to_vec();
-            if db2.len() >= 2 && self.r.chance(1, 5) {
-                let n = self.extra_name(sh, &db2);
-                let mut c = n.chars();
-                let up: String = c.next().map(|f| f.to_ascii_uppercase().to_string() + c.as_str()).unwrap_or_default();
-                if !db2.iter().any(|(m, _)| *m == up) && !sh.bound.iter().any(|(m, _)| *m == up) {
-                    db2.push((up, "i".to_string()));
-                }
-            }
-            self.emit(format!("PR {} {} {} {}", e.id, e.desc, db_str(&db2), cells_str(&vals)));
+            // PT: the last column in a second table (the per-column table spec form)
+            let kind = if db.len() >= 2 && self.r.chance(1, 3) { "PT" } else { "PR" };
+            self.emit(format!("{} {} {} {} {}", kind, e.id, e.desc, dbs, cells_str(&vals)));
         }
         if !(if is_v { e.dv.is_some() } else { e.dr.is_some() }) {
             return;
@@ -1613,17 +1605,24 @@ fn main() {
         return;
     }
     let mut g = Gen { thorough: a.tier == "thorough", reg: &reg, out, r: Rng::new(a.seed) };
+    // a struct whose registered descriptor disagrees with its attribute text gets its XD line
+    // (`diff descriptor-drift`) and NO cases: they would be judged with a wrong descriptor
+    let mut drifted: Vec<&str> = vec![];
     for e in reg.iter() {
         let derived = derive_desc(e.id).unwrap_or_else(|m| format!("error:{}", m.replace(' ', "_")));
         let same = if derived == e.desc { "same" } else { "differ" };
+        if derived != e.desc {
+            drifted.push(e.id);
+        }
         g.out.case(&format!("XD {} {} {}", e.id, e.desc, derived), same);
     }
+    let reg: Vec<&Entry> = reg.iter().filter(|e| !drifted.contains(&e.id)).collect();
     let thorough = a.tier == "thorough";
     for e in reg.iter() {
         g.structured(e, thorough);
     }
     for i in 0..a.n {
-        let e = &reg[(i % reg.len() as u64) as usize];
+        let e = reg[(i % reg.len() as u64) as usize];
         g.random(e);
     }
     g.nested(if thorough { 40 } else { 6 });
